@@ -49,7 +49,8 @@ CodeIdx(idx, R) == [k \in 1..Len(idx) |-> IF 2 * idx[k] > R THEN idx[k] - 1 - R 
 
 \* The session is pipeline shaped: operations act on the most recent object `cur` (and on the two initial
 \* objects 1, 2 as second operands); cache-warming queries may hit the initial measure or the current object.
-cur == Len(heap)
+\* family M starts with the focus on the measure (object 1; object 2 is the factor used as second operand)
+cur == IF Family = "M" /\ Len(heap) <= 2 THEN 1 ELSE Len(heap)
 Focus == {1, cur} \cap Measures
 
 StepM ==
